@@ -36,6 +36,7 @@ inline std::vector<std::string>& capi_unknown() { static std::vector<std::string
 #include <amgcl/preconditioner/runtime.hpp>
 #endif
 #include <sanitizer/lsan_interface.h>
+extern "C" size_t __sanitizer_get_current_allocated_bytes(void);      // libasan (sanitizer/allocator_interface.h is not shipped with gcc)
 #include <sstream>
 #include <cstring>
 #include <unistd.h>
@@ -277,8 +278,13 @@ static Result do_script(Cur &c) {
     std::vector<double> rhs(n), x0(n);
     for (long i = 0; i < n; ++i) { rhs[i] = 1 + (i % 3) * 0.5; x0[i] = (i % 2) * 0.25; }
     std::vector<Slot> slots;
-    std::string verdict; long uses = 0, reports = 0;
-    capi_unknown().clear();
+    std::string verdict; verdict.reserve(64); long uses = 0, reports = 0;
+    capi_unknown().clear(); capi_unknown().shrink_to_fit();
+    // leak detection: LeakSanitizer's stop-the-world check is authoritative but costs ~0.3 s; it is run when the number
+    // of live heap bytes after the script (everything destroyed / cleaned up) differs from the number before it, and
+    // unconditionally on every 64th script
+    static long script_no = 0; ++script_no;
+    const size_t heap_before = __sanitizer_get_current_allocated_bytes();
     // shadow bookkeeping (independent of the Lean model): a handle may be passed to a call iff it was returned by a
     // create call of the right family and has not been destroyed since
     auto check = [&](long h, char kind) -> const char* {
@@ -290,7 +296,7 @@ static Result do_script(Cur &c) {
     try {
         for (size_t i = 0; i < calls.size() && verdict.empty(); ++i) {
             const Call &k = calls[i];
-            auto bad = [&](const char *w) { verdict = "error " + std::to_string(i) + " " + w; };
+            auto bad = [&](const char *w) { verdict.assign("error " + std::to_string(i) + " " + w); };   // assign: keeps the pre-reserved buffer (heap accounting below)
             if (k.op == "pcreate") { Slot s; s.kind = 'p'; s.alive = true; s.h = amgcl_params_create(); slots.push_back(s); }
             else if (k.op == "pset") {
                 if (auto w = check(k.h, 'p')) { bad(w); break; }
@@ -342,18 +348,24 @@ static Result do_script(Cur &c) {
             }
             else if (k.op == "sdestroy") { if (auto w = check(k.h, 's')) { bad(w); break; } amgcl_solver_destroy(slots[k.h].h); slots[k.h].alive = false; slots[k.h].rslv.reset(); }
         }
-    } catch (const std::exception &e) { r.fail(std::string("exception: ") + e.what()); verdict = "exception"; }
+    } catch (const std::exception &e) { r.fail(std::string("exception: ") + e.what()); verdict.assign("exception"); }
+    long live = -1;
     if (verdict.empty()) {
-        Line l; long live = 0; for (auto &s : slots) if (s.alive) ++live;
+        Line l; live = 0; for (auto &s : slots) if (s.alive) ++live;
         l << "ok" << live;
         for (auto &s : slots) if (s.alive) l << (s.kind == 'p' ? "params" : s.kind == 'a' ? "precond" : "solver");
-        verdict = l.get();
-        r.tag(live ? "script_ok_live" : "script_ok_balanced");
-    } else r.tag("script_" + verdict.substr(verdict.rfind(' ') + 1));
+        verdict.assign(l.get());
+    }
     // clean up whatever the script left alive, then the C API must not have leaked anything
     for (auto &s : slots) if (s.alive) { if (s.kind == 'p') amgcl_params_destroy(s.h); else if (s.kind == 'a') amgcl_precond_destroy(s.h); else amgcl_solver_destroy(s.h); s.alive = false; }
-    slots.clear();
-    if (__lsan_do_recoverable_leak_check()) r.fail("memory leaked by the create/destroy pairs of the script");
+    slots.clear(); slots.shrink_to_fit();
+    capi_unknown().clear(); capi_unknown().shrink_to_fit();
+    const size_t heap_after = __sanitizer_get_current_allocated_bytes();
+    if (r.ok && (heap_after != heap_before || script_no % 64 == 1)) {
+        if (__lsan_do_recoverable_leak_check()) r.fail("memory leaked by the create/destroy pairs of the script");
+        r.tag(heap_after != heap_before ? "lsan_triggered" : "lsan_periodic");
+    }
+    if (live >= 0) r.tag(live ? "script_ok_live" : "script_ok_balanced"); else r.tag("script_" + verdict.substr(verdict.rfind(' ') + 1));
     r.out = verdict;
     r.nontrivial = calls.size() >= 3 && (uses + reports) >= 1;
     return r;
